@@ -44,6 +44,7 @@ type rg struct {
 	hd     int
 	ctr    int
 	arrs   map[string]bool
+	busy   map[string]bool // files an enclosing group is currently redirected to
 }
 
 var (
@@ -278,7 +279,7 @@ func (g *rg) cond(d int) string {
 		return "! " + g.cond(0)
 	case k == 9 && g.nfile > 0:
 		g.f("test-file")
-		return "[ " + g.pick([]string{"-f", "-e", "-s", "-d", "-r"}) + fmt.Sprintf(" f%d", 1+g.r.IntN(g.nfile)) + " ]"
+		return "[ " + g.pick([]string{"-f", "-e", "-s", "-d", "-r"}) + " " + g.someFile() + " ]"
 	case k == 10 && len(g.funcs) > 0 && g.inFunc == 0:
 		return g.pick(g.funcs) + " " + g.simpleWord() + " >/dev/null"
 	default:
@@ -332,7 +333,12 @@ func (g *rg) someFile() string {
 	if g.nfile == 0 {
 		return g.newFile()
 	}
-	return fmt.Sprintf("f%d", 1+g.r.IntN(g.nfile))
+	f := fmt.Sprintf("f%d", 1+g.r.IntN(g.nfile))
+	if g.busy[f] {
+		// never read or rewrite a file an enclosing group is writing to
+		return g.newFile()
+	}
+	return f
 }
 
 func (g *rg) stmt(d int) {
@@ -351,14 +357,14 @@ func (g *rg) tryStmt(d int) bool {
 		g.line("echo " + g.words(d, 1, 4))
 	case k < 7:
 		g.f("printf")
-		g.line("printf " + g.pick([]string{`'%s\n'`, `'[%s]'`, `'%s=%s\n'`, `'%d\n'`, `'<%5s>\n'`, `'%-4s|\n'`, `'%s'`, `"%s\n"`}) + " " + g.words(d, 1, 3))
+		g.line("printf " + g.pick([]string{`'%s\n'`, `'[%s]'`, `'%s=%s\n'`, `'%s'`, `"%s\n"`}) + " " + g.words(d, 1, 3))
 		if g.p(2) {
 			g.line("echo")
 		}
 	case k < 10:
 		g.line(g.v() + "=" + g.word(d))
 	case k == 10:
-		g.line(g.v() + "+=" + g.word(d))
+		g.line(g.v() + "+=" + g.quoted(g.pickWord())) // a literal: appending a variable to itself in nested loops grows exponentially
 		g.f("append")
 	case k == 11:
 		v := g.iv()
@@ -459,15 +465,30 @@ func (g *rg) tryStmt(d int) bool {
 		g.line("if " + g.cond(0) + "; then " + g.pick([]string{"break", "continue"}) + lvl + "; fi")
 	case k < 22 && d > 0:
 		g.f("case")
-		g.line("case " + g.word(d) + " in")
-		g.ind++
+		subj := g.word(d)
 		n := 1 + g.r.IntN(3)
+		pats := []string{"foo", "ba*", "?", "[a-c]*", "a|b", "\"$" + g.v() + "\"", "$" + g.v(), "''", "*o*", "[!a]*", "4[0-9]"}
+		chain := g.p(4) && g.ok("case-fallthrough")
+		if chain {
+			// several items that match the same subject, chained by ;& and ;;&
+			lit := g.simpleWord()
+			subj = lit
+			n = 3 + g.r.IntN(3)
+			pats = []string{lit, "*", lit + "|zz", "nomatch", "?*", "zz", "[!z]*"}
+		}
+		g.line("case " + subj + " in")
+		g.ind++
 		for i := 0; i < n; i++ {
-			pat := g.pick([]string{"foo", "ba*", "?", "[a-c]*", "a|b", "\"$" + g.v() + "\"", "$" + g.v(), "''", "*o*", "[!a]*", "4[0-9]"})
-			g.line(pat + ")")
-			g.block(d - 1)
+			g.line(g.pick(pats) + ")")
+			if chain {
+				g.ind++
+				g.line("echo item" + fmt.Sprint(i))
+				g.ind--
+			} else {
+				g.block(d - 1)
+			}
 			op := ";;"
-			if g.p(6) && g.ok("case-fallthrough") {
+			if (chain && !g.p(3) || g.p(6)) && g.ok("case-fallthrough") {
 				op = g.pick([]string{";&", ";;&"})
 				g.f("case-fallthrough")
 			}
@@ -530,9 +551,14 @@ func (g *rg) tryStmt(d int) bool {
 	case k == 25 && d > 0:
 		g.f("redirect-file")
 		f := g.newFile()
+		if g.busy == nil {
+			g.busy = map[string]bool{}
+		}
+		g.busy[f] = true
 		g.line("{")
 		g.block(d - 1)
-		g.line("} " + g.pick([]string{">", ">"}) + " " + f)
+		g.line("} > " + f)
+		delete(g.busy, f)
 		g.line("cat " + f)
 	case k == 26:
 		g.f("redirect-file")
@@ -608,8 +634,10 @@ func (g *rg) tryStmt(d int) bool {
 			g.line(g.pick([]string{"false", "[ a = b ]", "(exit 3)", "fn_missing 2>/dev/null"}))
 			g.line("echo not-reached")
 		}
-		if g.p(2) {
+		if g.p(2) || !g.ok("set-e-persistent") {
 			g.line("set +e")
+		} else {
+			g.f("set-e-persistent")
 		}
 	case k == 32 && g.inFunc == 0 && g.ok("pipefail"):
 		g.f("pipefail")
